@@ -15,6 +15,7 @@ var zzC16Pages = []string{
 	/* 3 */ `<ul><li v-for="i in items" v-once>AAA</li></ul>`,
 	/* 4 */ `<div><p v-for="i in items"><template include="c.vuego"></template></p><s v-once>BBB</s></div>`,
 	/* 5 */ `<div><b v-once>AAA</b><span v-for="i in items"><u v-once>BBB</u></span><template include="d.vuego"></template></div>`,
+	/* 6 */ `<ul><li v-for="i in items"><b v-once EXTRA>AAA</b></li></ul><p v-for="i in items"><template include="e.vuego"></template></p>`,
 }
 
 // expected number of occurrences of each marker
@@ -25,16 +26,22 @@ var zzC16Want = []map[string]int{
 	{"AAA": 1},
 	{"CCC": 1, "BBB": 1},
 	{"AAA": 1, "BBB": 1, "DDD": 1},
+	{"AAA": 1, "EEE": 1},
 }
 
-func zzC16FS() *zzFS {
+// other directives the marked element may carry
+var zzC16Extras = []string{"", "v-pre", `v-if="yes"`, `:title="t"`, `v-show="yes"`, `class="x"`}
+
+func zzC16FS(extra string) *zzFS {
 	files := map[string]string{
 		"c.vuego": `<em v-once>CCC</em><q>c</q>`,
 		"d.vuego": `<s v-once>DDD</s>`,
+		"e.vuego": `<s v-once EXTRA>EEE</s>`,
 	}
 	for i, p := range zzC16Pages {
-		files["p"+string(rune('0'+i))+".vuego"] = p
+		files["p"+string(rune('0'+i))+".vuego"] = strings.ReplaceAll(p, "EXTRA", extra)
 	}
+	files["e.vuego"] = strings.ReplaceAll(files["e.vuego"], "EXTRA", extra)
 	return newZZFS(files)
 }
 
@@ -42,8 +49,12 @@ func zzC16FS() *zzFS {
 func VerifC16_Once() {
 	k := zzChoice("page", len(zzC16Pages))
 	entry := zzChoice("entry", 3)
-	fsys := zzC16FS()
-	tpl := NewFS(fsys).Fill(map[string]any{"items": []int{1, 2, 3}})
+	extra := ""
+	if k == 6 {
+		extra = zzC16Extras[zzChoice("extra", len(zzC16Extras))]
+	}
+	fsys := zzC16FS(extra)
+	tpl := NewFS(fsys).Fill(map[string]any{"items": []int{1, 2, 3}, "yes": true, "t": "T"})
 	name := "p" + string(rune('0'+k)) + ".vuego"
 	render := func() (string, error) {
 		w := &zzWriter{limit: 1 << 20}
@@ -52,10 +63,10 @@ func VerifC16_Once() {
 		case 0:
 			err = tpl.RenderFile(contextBackground(), w, name)
 		case 1:
-			err = tpl.RenderString(contextBackground(), w, zzC16Pages[k])
+			err = tpl.RenderString(contextBackground(), w, strings.ReplaceAll(zzC16Pages[k], "EXTRA", extra))
 		default:
 			vue := NewVue(fsys)
-			err = vue.RenderFragment(w, name, map[string]any{"items": []int{1, 2, 3}})
+			err = vue.RenderFragment(w, name, map[string]any{"items": []int{1, 2, 3}, "yes": true, "t": "T"})
 		}
 		return string(w.got), err
 	}
@@ -65,7 +76,6 @@ func VerifC16_Once() {
 	zzNote("out", out1)
 	zzAssert(err1 == nil && err2 == nil, "C16.once.render-error")
 	for m, n := range zzC16Want[k] {
-		zzNote("marker", m)
 		zzAssert(strings.Count(out1, m) == n, "C16.once.emitted-exactly-once")
 	}
 	zzAssert(out1 == out2, "C16.once.second-render-differs")
